@@ -1,6 +1,7 @@
 package main
 
 import (
+	"strings"
 	"fmt"
 	"go/token"
 	"go/types"
@@ -24,7 +25,17 @@ func (s *Session) val(st *State, v ssa.Value) Value {
 			return g
 		}
 		// address of a package-level variable: scalar heap entry
-		return &Loc{Key: globalKey(x), Sort: ArrSort(SInt, sortOf(t)), Idx: []Term{TZero}, Obj: t}
+		l := &Loc{Key: globalKey(x), Sort: ArrSort(SInt, sortOf(t)), Idx: []Term{TZero}, Obj: t}
+		if x.Pkg != nil && !strings.HasPrefix(x.Pkg.Pkg.Path(), modPath) && libNonNilVars[x.Pkg.Pkg.Path()+"."+x.Name()] {
+			// well-known library variables that are set once at package initialisation and never nil
+			v := s.loadLoc(st, l)
+			if v.Sort == SIface {
+				st.assume(Ne(ITag(v), TZero))
+			} else if v.Sort == SInt {
+				st.assume(Ne(v, TZero))
+			}
+		}
+		return l
 	case *ssa.Builtin:
 		return x
 	}
@@ -747,4 +758,10 @@ func (s *Session) selectOp(st *State, x *ssa.Select) Value {
 		out = append(out, s.freshTyped(st, "select_recv", tup.At(i).Type()))
 	}
 	return out
+}
+
+// libNonNilVars: library package variables assumed non-nil (trusted base, listed in DESIGN.md §8).
+var libNonNilVars = map[string]bool{
+	"io.Discard": true, "io/ioutil.Discard": true, "io.EOF": true,
+	"os.Stdin": true, "os.Stdout": true, "os.Stderr": true,
 }
